@@ -35,6 +35,7 @@ def _enum(model: RepoModel, name: str) -> Dict[str, int]:
 
 
 def check_candidate_names_agree(model: RepoModel, rep, RID: str):
+    from ..model import canon_code
     """A method-call statement is accepted as a sink by one function and given its tag by another; both build the list of names the rule
     name is looked up in.  Whatever the acceptance appends UNCONDITIONALLY (the literal `<receiver>.<method>` of the statement) the
     tag computation must append unconditionally too -- otherwise a statement is kept as a sink but no rule matches it and its tag is 0."""
@@ -54,10 +55,13 @@ def check_candidate_names_agree(model: RepoModel, rep, RID: str):
         for n in cfg.g.nodes:
             for c in cfg.calls_at(n):
                 if isinstance(c.func, ast.Attribute) and c.func.attr == "append" and isinstance(c.func.value, ast.Name) and c.func.value.id in lists and c.args:
-                    conds = [a for a, t in cfg.conditions_at(n) if not (isinstance(a, ast.Compare) and "operation" in norm(a)) and "node_type" not in norm(a)
-                             and "node.name" not in norm(a)]
+                    # the dispatch on the statement kind (`<x> == "object_call_stmt"`, node type tests) is not a condition on the NAME
+                    conds = [a for a, t in cfg.conditions_at(n) if not (isinstance(a, ast.Compare) and any(
+                        isinstance(x, ast.Constant) and isinstance(x.value, str) and (x.value.endswith("_stmt") or x.value in ("new_object",)) for x in ast.walk(a)))
+                        and "node_type" not in norm(a) and not any(isinstance(x, ast.Attribute) and x.attr in ("STMT", "SYMBOL", "STATE") for x in ast.walk(a))]
                     in_loop = any(n in body and cfg.kind[h] == "iter" for h, body in cfg.loop_body_nodes.items())
-                    out[norm(c.args[0])] = (not conds and not in_loop) or out.get(norm(c.args[0]), False)
+                    k_ = canon_code("`" + norm(c.args[0]) + "`")
+                    out[k_] = (not conds and not in_loop) or out.get(k_, False)
         return out
     a_, t_ = appended(acc), appended(tag)
     key = "taint/taint_analysis.py::get_sink_tag_by_rules[object_call_stmt]::looks the rule name up in the names the acceptance accepts by"
